@@ -207,7 +207,9 @@ def hEx : Hist Nat where
   byte := fun id o => if id = "idA" then o else o + 500
   snap := fun id o => if id = "idA" then [o, o] else [o + 500]
 
-def lEx : Leader Nat := ⟨true, ["idA"], "idA", some ⟨10, [10, 11, 12, 13, 14], some [10, 10]⟩, true⟩
+def lEx : Leader Nat := ⟨true, ["idA"], "idA", some ⟨10, [10, 11, 12, 13, 14], some [10, 10]⟩, true, []⟩
+/-- the same leader receiving two more bytes while its stream reader is open -/
+def lGrow : Leader Nat := { lEx with tail := [15, 16] }
 /-- the follower process was following run id B (bytes 8..15 of B) -/
 def fOther : Store Nat := ⟨"idB", [("idB", some ⟨8, [508, 509, 510, 511, 512, 513, 514, 515], none⟩)]⟩
 def fPrefix : Store Nat := ⟨"idA", [("idA", some ⟨9, [9, 10, 11], none⟩)]⟩
@@ -216,7 +218,10 @@ def fOld : Store Nat := ⟨"idA", [("idA", some ⟨2, [2, 3], none⟩)]⟩
 
 example : lEx.Faithful hEx := by
   intro d hd; cases hd
-  exact ⟨by decide, fun s hs => by cases hs; decide⟩
+  exact ⟨⟨by decide, fun s hs => by cases hs; decide⟩, by decide⟩
+example : lGrow.Faithful hEx := by
+  intro d hd; cases hd
+  exact ⟨⟨by decide, fun s hs => by cases hs; decide⟩, by decide⟩
 example : WF .disk fOther ∧ WF .mem fOther ∧ WF .disk fPrefix ∧ WF .mem fAhead := by
   refine ⟨⟨Or.inr (by decide), by decide⟩, ⟨by decide, by decide, by decide⟩,
     ⟨Or.inr (by decide), by decide⟩, ⟨by decide, by decide, by decide⟩⟩
@@ -233,6 +238,8 @@ example : (session .mem lEx fOther [] 10 0 3).store.dirs = [] ∧ (session .mem 
 example : (session .disk lEx fPrefix [1, 2] 10 0 3).store.dirs = [("idA", some ⟨9, [9, 10, 11, 12, 13, 14], none⟩)] := by decide
 example : (session .disk lEx fPrefix [1, 2] 3 0 3).store.dirs = [("idA", some ⟨9, [9, 10, 11, 12], none⟩)] := by decide
 example : (session .disk lEx fPrefix [1, 2] 4 1 3).store.dirs = [("idA", some ⟨9, [9, 10, 11, 12, 13], none⟩)] := by decide
+-- a live leader: the bytes appended during the session arrive too
+example : (session .disk lGrow fPrefix [] 10 0 3).store.dirs = [("idA", some ⟨9, [9, 10, 11, 12, 13, 14, 15, 16], none⟩)] := by decide
 -- position below the leader's first offset: the snapshot is taken, then the stream
 example : (session .disk lEx fOld [] 10 0 3).store.dirs = [("idA", some ⟨10, [10, 11, 12, 13, 14], some [10, 10]⟩)] := by decide
 -- … and an interrupted snapshot transfer leaves nothing
